@@ -162,7 +162,7 @@ class Rejected(Exception):
     """the format compiler (or the op definition) refuses the spec"""
 
 
-def make_op(spec: dict[str, Any]):
+def make_op(spec: dict[str, Any], with_format: bool = True):
     from xdsl.dialects.builtin import IndexType, i32
     from xdsl.irdl import (AnyAttr, AttrSizedOperandSegments, AttrSizedResultSegments, IRDLOperation,
                            ParsePropInAttrDict, SameVariadicOperandSize, SameVariadicResultSize, VarConstraint,
@@ -204,18 +204,21 @@ def make_op(spec: dict[str, Any]):
     o = spec.get("opts", {})
     nvo = sum(1 for _, k, _ in defs.get("operands", []) if k != "single")
     nvr = sum(1 for _, k, _ in defs.get("results", []) if k != "single")
-    if nvo > 1:
-        opts.append(SameVariadicOperandSize() if o.get("same_size") else AttrSizedOperandSegments(as_property=o.get("seg_prop", True)))
-    if nvr > 1:
+    # `force_seg`: the segment-size option although one optional/variadic definition would not need it
+    force = bool(o.get("force_seg"))
+    if nvo > 1 or (force and nvo == 1):
+        opts.append(SameVariadicOperandSize() if o.get("same_size") and nvo > 1 else AttrSizedOperandSegments(as_property=o.get("seg_prop", True) or force))
+    if nvr > 1 or (force and nvr == 1):
         # the result segment attribute is not reserved by the format compiler; keep it a property so that
         # it never shows up in the printed attribute dictionary
-        opts.append(SameVariadicResultSize() if o.get("same_size") else AttrSizedResultSegments(as_property=True))
+        opts.append(SameVariadicResultSize() if o.get("same_size") and nvr > 1 else AttrSizedResultSegments(as_property=True))
     if o.get("prop_in_dict"):
         opts.append(ParsePropInAttrDict())
     ns["irdl_options"] = tuple(opts)
     if defs.get("succs"):
         ns["traits"] = traits_def(IsTerminator())
-    ns["assembly_format"] = render_fmt(spec["fmt"])
+    if with_format:
+        ns["assembly_format"] = render_fmt(spec["fmt"])
     try:
         return irdl_op_definition(type(f"GenOp{_COUNTER[0]}", (IRDLOperation,), ns))
     except PyRDLError as e:
@@ -346,8 +349,9 @@ ANY_SEP = [",", "(", "[", "{", "}", "<", ">", "-", "+", "*", "|", "?", "::", "..
 
 def random_spec(rng, *, model_fragment: bool, risky: float = 0.12) -> dict[str, Any]:
     """A mostly well-formed (in the sense of XdslModel.DeclFormat.wfD) spec.  `model_fragment`: only
-    constructs the theorem `decl_roundtrip` covers (no functional-type / operands / results directives,
-    no type inference through a constraint variable, no qualified()).  `risky`: probability of each
+    constructs the theorem `decl_roundtrip` covers (no type inference through a constraint variable, no
+    qualified(), no `anyhard` attribute payloads; `operands`, `type(operands)`, `type(results)` and
+    `functional-type` are covered).  `risky`: probability of each
     deliberately doubtful choice (ambiguous literal, bare unit attribute, …)."""
     defs: dict[str, Any] = {"operands": [], "results": [], "regions": [], "succs": [], "attrs": []}
     items: list[list[dict[str, Any]]] = []
@@ -374,8 +378,9 @@ def random_spec(rng, *, model_fragment: bool, risky: float = 0.12) -> dict[str, 
 
     use_T = (not model_fragment) and rng.random() < 0.15
     nops = rng.choice([0, 1, 1, 2, 2, 3])
-    whole_operands = (not model_fragment) and nops > 0 and rng.random() < 0.2
-    typed_by_functype = (not model_fragment) and rng.random() < 0.25
+    # the aggregate directives are inside the theorem's class since the C05G extension
+    whole_operands = nops > 0 and rng.random() < 0.2
+    typed_by_functype = rng.random() < 0.25
     for i in range(nops):
         n = "o" + str(i)
         kind = rng.choice(["single", "single", "opt", "var", "var"])
@@ -428,7 +433,7 @@ def random_spec(rng, *, model_fragment: bool, risky: float = 0.12) -> dict[str, 
                     else:
                         late.append([sep(), tdir])
     nres = rng.choice([0, 0, 1, 1, 2])
-    whole_results = (not model_fragment) and nres > 0 and (typed_by_functype or rng.random() < 0.2)
+    whole_results = nres > 0 and (typed_by_functype or rng.random() < 0.2)
     for i in range(nres):
         n = "r" + str(i)
         kind = rng.choice(["single", "single", "opt", "var"])
@@ -534,6 +539,8 @@ def random_spec(rng, *, model_fragment: bool, risky: float = 0.12) -> dict[str, 
                 items.append([{"k": "group", "anchor": 1, "then": [kw(), var], "else": []}])
             else:
                 items.append([kw(), var])
+    if (whole_operands or whole_results or typed_by_functype) and rng.random() < 0.12:
+        opts["force_seg"] = True
     rng.shuffle(items)
     rng.shuffle(late)
     seq = items + late
@@ -737,7 +744,7 @@ def make_consistent(spec, inst):
 
 class CaseResult:
     __slots__ = ("status", "detail", "rt", "fmt", "cls", "lines", "impl_print", "impl_parse", "tables", "prog",
-                 "modelled", "typed_optional", "follow")
+                 "modelled", "typed_optional", "follow", "generic", "generic_skip", "module", "nvals", "nblocks")
 
     def __init__(self):
         self.status = "ok"
@@ -753,6 +760,11 @@ class CaseResult:
         self.modelled = False
         self.typed_optional = False
         self.follow = "p:}"
+        self.generic = None              # c05_agg.GenericCase (generic-form leg), when prepared
+        self.generic_skip = ""
+        self.module = None
+        self.nvals = 0
+        self.nblocks = 0
 
 
 def find_gen_op(module):
@@ -762,7 +774,7 @@ def find_gen_op(module):
     return None
 
 
-def run_case(spec, inst, cls=None, with_model: bool = True) -> CaseResult:
+def run_case(spec, inst, cls=None, with_model: bool = True, with_generic: bool = False) -> CaseResult:
     res = CaseResult()
     res.fmt = render_fmt(spec["fmt"])
     if cls is None:
@@ -815,6 +827,18 @@ def run_case(spec, inst, cls=None, with_model: bool = True) -> CaseResult:
         res.lines = [dl + " " + func_types_field(T), fmt_line, op_line(e), "wf " + res.follow, "print",
                      "roundtrip " + res.follow]
         res.modelled = True
+        res.module, res.nvals, res.nblocks = m, len(vals), len(blocks)
+        if with_generic:
+            from props import c05_agg as A
+
+            modes = A.seg_modes(cls)
+            if modes is None:
+                res.generic_skip = "option"
+            else:
+                try:
+                    res.generic = A.prepare_generic(op, cls, T, modes)
+                except Exception as ex:  # noqa: BLE001
+                    res.generic_skip = "prepare:" + type(ex).__name__
     except Unmodelled as e:
         res.modelled = False
         res.detail = "unmodelled: " + str(e)
@@ -851,8 +875,12 @@ class Tables:
         self.region_objs: dict[int, Any] = {}
 
     def attr(self, name: str, a) -> int:
-        """ids are per (attribute name, value): the printed form of a value depends on the directive"""
-        k = (name, a)
+        """ids are per (attribute name, value): the printed form of a value depends on the directive
+        (a `UnitAttr` has one id whatever the name: it is never printed as a value, and the generic form
+        shows it as the bare key)"""
+        from xdsl.dialects.builtin import UnitAttr
+
+        k = ("", a) if isinstance(a, UnitAttr) else (name, a)
         if k not in self.attrs:
             self.attrs[k] = len(self.attrs) + 1
             self.attr_objs[self.attrs[k]] = k
@@ -886,6 +914,12 @@ def compiled_program(cls):
 
     od = cls.get_irdl_definition()
     return FormatProgram.from_str(od.assembly_format, od)
+
+
+def FormatProgramOf(cls, fmt: str):
+    from xdsl.irdl.declarative_assembly_format import FormatProgram
+
+    return FormatProgram.from_str(fmt, cls.get_irdl_definition())
 
 
 def _kind_of(obj) -> str:
@@ -1137,11 +1171,15 @@ def render_tokens(line: str, T: Tables, prog, sep: str = "") -> str:
             out.append(io.getvalue())
         elif tag == "a":
             name, obj = T.attr_objs[int(body)]
-            d = find_attr_directive(prog, name)
-            if d is None:
-                raise Unmodelled("attr token without directive " + name)
             io = StringIO()
-            d.print_attr(Printer(stream=io), obj)
+            if name == "":
+                # a UnitAttr printed as a value (qualified($u)): every attribute variable prints it alike
+                Printer(stream=io).print_attribute(obj)
+            else:
+                d = find_attr_directive(prog, name)
+                if d is None:
+                    raise Unmodelled("attr token without directive " + name)
+                d.print_attr(Printer(stream=io), obj)
             out.append(io.getvalue())
         else:
             raise Unmodelled("token " + w)
